@@ -80,7 +80,18 @@ func callHang(st *store.Store, grace time.Duration, fn func()) (returned bool, d
 			// if the process keeps BURNING CPU in this state (a spinning goroutine; a starved one burns nothing)
 			d := goroutineDump()
 			if !libBusy(d) {
-				return false, d
+				// idle twice, a second apart, with nothing having happened at the store in between
+				time.Sleep(time.Second)
+				select {
+				case <-done:
+					return true, ""
+				default:
+				}
+				if d2 := goroutineDump(); !libBusy(d2) && st.Seq() == seq && st.Inflight() == 0 {
+					return false, d2
+				}
+				stable = 3
+				continue
 			}
 			if lw.spinning() {
 				return false, "LIVELOCK: store quiescent, call not returned, a library goroutine kept running and the process burned >" + livelockCPU.String() + " of CPU time in that state\n\n" + d
@@ -121,7 +132,10 @@ func (l *livelockWatch) spinning() bool {
 	return processCPU()-l.cpu0 > livelockCPU
 }
 
-var waitingState = regexp.MustCompile(`^goroutine \d+ \[(sync\.|semacquire|chan |select)`)
+// (a bare "semacquire" is NOT a wait for another goroutine of the program: it is what a goroutine shows while the
+// runtime holds it - garbage-collection assist, the stop-the-world of the very dump being taken; the sync package's
+// own waits have names of their own: sync.Mutex.Lock, sync.RWMutex.RLock, sync.Cond.Wait, sync.WaitGroup.Wait)
+var waitingState = regexp.MustCompile(`^goroutine \d+ \[(sync\.|chan |select)`)
 
 // libBusy reports whether some goroutine with a library frame on its stack is running, runnable or in a system
 // call (i.e. not waiting for another goroutine): then nothing can be said about a hang yet.
@@ -417,8 +431,16 @@ func c11Case(run *evid.Run, i int, j *Journal) {
 						d := goroutineDump()
 						switch {
 						case !libBusy(d):
-							hung, dump = true, d
-							return
+							time.Sleep(time.Second)
+							select {
+							case <-returned:
+								return
+							default:
+							}
+							if d2 := goroutineDump(); !libBusy(d2) && cs.Seq() == seq && cs.Inflight() == 0 {
+								hung, dump = true, d2
+								return
+							}
 						case lw.spinning():
 							hung, dump = true, "LIVELOCK: store quiescent, every timeout fired, call not returned, a library goroutine kept running and the process burned >"+livelockCPU.String()+" of CPU time in that state\n\n"+d
 							return
